@@ -30,14 +30,20 @@ def fm_bytes(bs, clock=0xFF):
 
 
 class TrackLayout:
-    def __init__(self, gap1=16, sync=6, gap2=11, gap3=21, gap4=40, fill=0xFF, order=None, size_code=1,
+    def __init__(self, gap1=16, sync=6, gap2=11, gap3=21, gap4=40, fill=0xFF, order=None, size_code=None,
                  deleted=None, mfm=False):
         self.gap1, self.sync, self.gap2, self.gap3, self.gap4 = gap1, sync, gap2, gap3, gap4
         self.fill = fill
         self.order = order
-        self.size_code = size_code
+        self.size_code = size_code      # None: from the length of each sector's data
         self.deleted = deleted or set()
         self.mfm = mfm
+
+
+def size_code_of(lay, data):
+    if lay.size_code is not None:
+        return lay.size_code
+    return {128: 0, 256: 1, 512: 2, 1024: 3}.get(len(data), 1)
 
 
 def fm_track(cyl, head, sectors, lay):
@@ -47,7 +53,7 @@ def fm_track(cyl, head, sectors, lay):
     for rec in order:
         data = sectors[rec]
         cells += fm_bytes([0x00] * lay.sync)
-        idf = bytes([0xFE, cyl, head, rec, lay.size_code])
+        idf = bytes([0xFE, cyl, head, rec, size_code_of(lay, data)])
         c = crc_ccitt(idf)
         cells += fm_byte(0xFE, 0xC7)
         cells += fm_bytes(list(idf[1:]) + [c >> 8, c & 255])
@@ -89,7 +95,7 @@ def mfm_track(cyl, head, sectors, lay):
         data = sectors[rec]
         c, prev = mfm_encode([0x00] * max(lay.sync, 2), prev)
         cells += c
-        idf = bytes([0xA1, 0xA1, 0xA1, 0xFE, cyl, head, rec, lay.size_code])
+        idf = bytes([0xA1, 0xA1, 0xA1, 0xFE, cyl, head, rec, size_code_of(lay, data)])
         crc = crc_ccitt(idf)
         c, prev = mfm_encode(list(idf) + [crc >> 8, crc & 255], prev, sync_a1=(0, 1, 2))
         cells += c
